@@ -62,6 +62,9 @@ func CoreFragments() map[string]*Fragment {
 			leaf("e9", "refs", "opt-uplink"),
 			leaf("w2", "sys", "mtu-ext"),
 		}},
+		{Name: "fm", Leaves: []Leaf{ // the only value of its owner in container sys is a leaf that has a schema default
+			leaf("500", "sys", "mtu"),
+		}},
 		{Name: "fh", Leaves: []Leaf{ // second namespace
 			leaf("noc", "sys", "contact"),
 			leaf("note", "if", e1, "ext-note"),
@@ -165,10 +168,10 @@ func CoreMulti() []Op {
 	}
 }
 
-var CoreFragOrder = []string{"fa", "fa1", "fb", "fc", "fd", "fp", "fe", "fg", "fh"}
+var CoreFragOrder = []string{"fa", "fa1", "fb", "fc", "fd", "fp", "fe", "fg", "fh", "fm"}
 
 // DeepFragOrder is the reduced alphabet used for one more level of depth.
-var DeepFragOrder = []string{"fa", "fa1", "fb", "fd", "fp"}
+var DeepFragOrder = []string{"fa", "fa1", "fb", "fd", "fp", "fm"}
 var MultiKeyFragOrder = []string{"mk4", "mk5", "mk1", "mk2", "mk3"}
 
 func mergeFrags(ms ...map[string]*Fragment) map[string]*Fragment {
